@@ -28,7 +28,8 @@ structure Case where
   clock : Nat := 0
   elim : List Nat := []                    -- info/n removed by qmail-send (elimination under way)
   owners : List (Nat × Nat) := []          -- injector index → number it linked
-  live : List Nat := []                    -- injector indices still running
+  live : List Nat := []                    -- injector indices still running (from their first traced call, whatever it is, to exit)
+  gone : List Nat := []                    -- injector indices that have exited
   lock : Option Nat := none                -- process holding lock/sendmutex
   inc : Nat := 0
   p5daemon : Bool := false
@@ -140,15 +141,18 @@ def handleT (d : D) (p : String) (toks : List String) : IO D := do
   let i := d.c.inc * 8 + pn
   let isInj := pn ≥ 2 && pn ≤ 4
   if d.c.p5daemon then return d
+  -- observer bookkeeping, independent of the monitor: an injector is running from its first traced call on (not from its alarm() call:
+  -- a qmail-queue that sets its timer late is still a running qmail-queue whose files must not be collected)
+  let d := if isInj && !d.c.live.contains i && !d.c.gone.contains i then { d with c := { d.c with live := i :: d.c.live } } else d
   match toks with
   | ["alarm", dd] =>
     if isInj then
-      let d := { d with c := { d.c with live := i :: d.c.live } }
       feed d (.iStart i (dd.toNat?.getD 0)) "iStart"
     else return d
   | "exit" :: _ | "CRASH" :: _ | "KILLED" :: _ =>
+    let d := if toks.head? == some "KILLED" then { d with st := d.st.bump "kill_fired" } else d
     if isInj then
-      let d := { d with c := { d.c with live := d.c.live.filter (· != i) } }
+      let d := { d with c := { d.c with live := d.c.live.filter (· != i), gone := i :: d.c.gone } }
       feed d (.iDie i) "iDie"
     else if d.c.lock == some pn then
       let d := { d with c := { d.c with lock := none } }
@@ -327,6 +331,9 @@ where
           d := { d with c := { d.c with owners := (i, n) :: d.c.owners } }
           if isInj then feed d (.iLinkMess i n) "iLinkMess" else disagree d s!"{p} linked {b}"
         else if f == .todo then
+          -- hand-over: with todo/n linked the message belongs to qmail-send; an injector that is still running (before its trigger
+          -- pull / exit) no longer owns n, and the later removal of mess/n after delivery is not a collection of its files
+          d := { d with c := { d.c with owners := d.c.owners.filter (fun (j, m) => !(j == i && m == n)) } }
           if isInj then feed d (.iLinkTodo i n) "iLinkTodo" else disagree d s!"{p} linked {b}"
         else disagree d s!"{p} linked {b}"
       | none => return d
@@ -406,7 +413,7 @@ def handle (d : D) (line : String) : IO D := do
     let d ← if inc == 1 then synthPre d else pure d
     return { d with c := { d.c with inc := inc } }
   | "X" :: "crash-applied" :: _ =>
-    let d := { d with c := { d.c with live := [], lock := none, elim := [] } }
+    let d := { d with c := { d.c with live := [], gone := [], lock := none, elim := [] } }
     feed d .crash "crash"
   | "X" :: "end" :: _ => if d.c.p5daemon then return d else return { d with c := { d.c with dumpPending := true, dump := [] } }
   | "X" :: "dfs-summary" :: rest =>
@@ -414,6 +421,7 @@ def handle (d : D) (line : String) : IO D := do
     let st := if (kvNat rest "complete").getD 0 == 1 then d.st.bump s!"dfs_cfg{cfg}_shards_enumerated_completely" else d.st.bump s!"dfs_cfg{cfg}_shards_cut_at_limit"
     return { d with st := st }
   | "X" :: "choices" :: _ => return { d with st := d.st.bump "dfs_schedules" }
+  | "X" :: "stall-fired" :: _ => return { d with st := d.st.bump "stall_fired" }
   | "X" :: "budget-abort" :: _ => return { d with st := d.st.bump "budget_abort" }
   | "X" :: "second-instance-abort" :: _ => return { d with st := d.st.bump "second_instance_abort" }
   | "X" :: "horizon-abort" :: _ => return { d with st := d.st.bump "horizon_abort" }
